@@ -75,19 +75,18 @@ def project(events: list[dict], tid: Any, ref: Ref | None = None, ret: dict | No
             out.append({"ev": "hmake", "matOK": bool(ref.mat(e)) if ref.mat else True})
         elif k == "h_update":
             if ref.row:
-                ok, row = ref.row(e, ts)
+                ok, hits = ref.row(e, ts)   # hits: indices of ALL reference rows (site order) equal to the received values
+                hits = list(hits) if not isinstance(hits, int) else [hits]
             else:
-                ok, row = True, -2
-            out.append({"ev": "hupdate", "rowOK": bool(ok), "row": int(row)})
+                ok, hits = True, None
+            out.append({"ev": "hupdate", "rowOK": bool(ok), "row": int(hits[0]) if hits else -2, "_hits": hits})
         elif k == "mps_update_h":
-            ev = {"ev": "updh", "ts": int(e["ts"]), "noisy": bool(e["noisy"])}
-            if not ref.row:
-                # no reference rows: make the row check vacuous by echoing the step index
-                for o in reversed(out):
-                    if o["ev"] == "hupdate":
-                        o["row"] = int(e["ts"])
-                        break
-            out.append(ev)
+            for o in reversed(out):
+                if o["ev"] == "hupdate":
+                    if o["_hits"] is None or int(e["ts"]) in o["_hits"]:
+                        o["row"] = int(e["ts"])   # the bookkeeping index is one of the matching rows (or no reference given)
+                    break
+            out.append({"ev": "updh", "ts": int(e["ts"]), "noisy": bool(e["noisy"])})
         elif k == "mps_fill":
             tidx = -1
             if tt is not None:
@@ -120,6 +119,8 @@ def project(events: list[dict], tid: Any, ref: Ref | None = None, ret: dict | No
             out.append({"ev": "permute", "on": bool(e["permute"])})
     # the updh row check needs the row index found for the h_update that precedes it; when a reference is
     # present `row` is the index of the reference row that matched (or -1)
+    for o in out:
+        o.pop("_hits", None)
     if ret is not None:
         out.append({"ev": "ret", "path": ret.get("path", "run"), "orderOK": bool(ret["orderOK"]), "valuesOK": bool(ret["valuesOK"]), "timesOK": bool(ret["timesOK"])})
     return {"id": tid, "partial": partial, "events": out}
